@@ -57,17 +57,32 @@ def xml_table(ctx):
     ctx.check(MARKUP <= keys, "table.covers-markup", db.where(tbl), "xml_escapes lacks %s" % sorted(MARKUP - keys), "keys %s" % sorted(keys))
     fn = db.func("filters.xml_escape")
     subs = [c for c in walk_func(fn) if isinstance(c, ast.Call) and dotted(c.func) == "re.sub"]
-    ctx.require(subs, "xml_escape does not call re.sub")
-    pat = str_value(subs[0].args[0])
+    pat = None
+    if subs:
+        pat = str_value(subs[0].args[0])
+        repl_arg, input_arg = subs[0].args[1], subs[0].args[2]
+    else:
+        # compiled pattern: <name>.sub(repl, string)
+        subs = [c for c in walk_func(fn) if isinstance(c, ast.Call) and isinstance(c.func, ast.Attribute) and c.func.attr == "sub" and isinstance(c.func.value, ast.Name)]
+        ctx.require(subs, "xml_escape performs no regex substitution")
+        v = db.module_assign("filters", subs[0].func.value.id)
+        if isinstance(v, ast.Call) and dotted(v.func) == "re.compile":
+            pat = str_value(v.args[0])
+        repl_arg, input_arg = subs[0].args[0], subs[0].args[1]
     ctx.require(pat is not None, "xml_escape pattern not constant")
+    try:
+        _class_chars(pat)
+    except AnalysisError:
+        ctx.violation("class-equals-keys", db.where(subs[0]), "xml_escape's pattern %r is no longer one character class: some occurrences of a markup character (e.g. an & that starts something entity-shaped) are left unescaped, so the output is not invertible and can smuggle entities" % pat)
+        return
     chars, _ = _class_chars(pat)
     ctx.check(chars == keys, "class-equals-keys", db.where(subs[0]), "regex class %s != table keys %s: a matched character without a replacement raises KeyError, a key not matched is never escaped" % (sorted(chars), sorted(keys)), "class == keys == %s" % sorted(keys))
     for k, v in vals.items():
         ok = isinstance(v, str) and v.startswith("&") and v.endswith(";") and not (set(v[1:-1]) & (MARKUP | {"&"})) and re.fullmatch(r"&(#\d+|#x[0-9a-fA-F]+|\w+);", v)
         ctx.check(bool(ok), "replacement:%s" % k, db.where(tbl), "replacement %r for %r is not a well-formed entity free of raw markup" % (v, k), "%r -> %r" % (k, v))
-    lam = subs[0].args[1]
+    lam = repl_arg
     ctx.check(isinstance(lam, ast.Lambda) and "xml_escapes[m.group()]" in src(lam), "lookup", db.where(subs[0]), "replacement callback is %s" % src(lam), "replacement = xml_escapes[matched char]")
-    ctx.check(src(subs[0].args[2]) == "string", "input", db.where(subs[0]), "re.sub is not applied to the whole input", "applied to the input string")
+    ctx.check(src(input_arg) == "string", "input", db.where(subs[0]), "re.sub is not applied to the whole input", "applied to the input string")
     he = db.module_assign("filters", "html_escape")
     ctx.check(dotted(he) == "markupsafe.escape", "html_escape", db.where(he), "html_escape is %s" % src(he), "html_escape = markupsafe.escape")
 
@@ -239,6 +254,9 @@ def small(ctx):
     ue = db.func("filters.url_escape")
     t = src(ue)
     enc = [c for c in walk_func(ue) if isinstance(c, ast.Call) and isinstance(c.func, ast.Attribute) and c.func.attr == "encode"]
+    rets = [r for r in walk_func(ue) if isinstance(r, ast.Return)]
+    all_quoted = bool(rets) and all(isinstance(r.value, ast.Call) and dotted(r.value.func) in ("quote_plus", "urllib.parse.quote_plus") for r in rets)
+    ctx.check(all_quoted, "url_escape.every-return-quoted", db.where(ue), "url_escape has a return that bypasses quote_plus (%s): for some input the output contains characters that are not URL-safe" % [src(r.value) for r in rets if not (isinstance(r.value, ast.Call) and dotted(r.value.func) in ("quote_plus", "urllib.parse.quote_plus"))], "every return is quote_plus(...)")
     ok = bool(enc) and const(enc[0].args[0]) in ("utf8", "utf-8", "UTF-8") and "quote_plus(string)" in t
     ctx.check(ok, "url_escape", db.where(ue), "url_escape does not UTF-8 encode and quote_plus", "encode('utf8') then quote_plus")
     imp = db.mod("filters").imports.get("quote_plus")
@@ -257,3 +275,36 @@ def small(ctx):
     ctx.check(src(hee) == "_html_entities_escaper.escape_entities", "entity-binding", db.where(hee), "html_entities_escape is %s" % src(hee), "bound to escape_entities")
     heu = db.module_assign("filters", "html_entities_unescape")
     ctx.check(src(heu) == "_html_entities_escaper.unescape", "unescape-binding", db.where(heu), "html_entities_unescape is %s" % src(heu), "bound to unescape")
+
+
+@rule("C10.table-ownership", min_instances=3)
+def table_ownership(ctx):
+    """the escape tables (xml_escapes, DEFAULT_ESCAPES, the entity translate table) are written only where they are built: a filter must not change what another filter replaces"""
+    db = ctx.db
+    m = db.mod("filters")
+    tables = {"xml_escapes": "module", "DEFAULT_ESCAPES": "module", "self.codepoint2entity": "filters.XMLEntityEscaper.__init__", "self.name2codepoint": "filters.XMLEntityEscaper.__init__"}
+    n = 0
+    for node in ast.walk(m.tree):
+        tgt = None
+        if isinstance(node, ast.Subscript) and isinstance(node.ctx, (ast.Store, ast.Del)):
+            tgt = dotted(node.value)
+        elif isinstance(node, ast.Call) and isinstance(node.func, ast.Attribute) and node.func.attr in ("update", "setdefault", "pop", "clear", "popitem", "__setitem__"):
+            tgt = dotted(node.func.value)
+        elif isinstance(node, ast.Attribute) and isinstance(node.ctx, ast.Store):
+            tgt = dotted(node)
+            if tgt not in tables:
+                continue
+            f = getattr(node, "_func", None)
+            q = getattr(f, "_qual", "module")
+            n += 1
+            ctx.check(q == tables[tgt], "assign:%s@%s" % (tgt, q), db.where(node), "%s is re-bound in %s" % (tgt, q), "built in its constructor")
+            continue
+        if tgt in tables:
+            n += 1
+            f = getattr(node, "_func", None)
+            q = getattr(f, "_qual", "module")
+            ctx.violation("mutate:%s@%s" % (tgt, q), db.where(node), "%s mutates the shared table %s: after one input has been processed the filters replace a different set of characters (e.g. the `entity` filter starts emitting numeric references that html_entities_unescape does not invert)" % (q, tgt))
+    ctx.ok("scan", "mako/filters.py", "%d writes to the escape tables, all in their constructors" % n)
+    for name in ("xml_escapes", "DEFAULT_ESCAPES"):
+        v = db.module_assign("filters", name)
+        ctx.check(isinstance(v, ast.Dict), "literal:" + name, db.where(v), "%s is not a dict literal" % name, "dict literal")
